@@ -130,7 +130,8 @@ Section C06.
          exists h2 a', deserialize ax (Some bytes) = Ok (h2, None) /\
            boot h2 = Ok a' /\
            storage a' = storage (wa w) /\ gaps a' = gaps (wa w) /\ thr a' = thr ax /\
-           hslen a' = 0%Z /\ hglen a' = 0%Z).
+           hslen a' = 0%Z /\ hglen a' = 0%Z /\
+           reachable (mkworld a' (owned w))).
   Proof. exact (disk_roundtrip compress decompress lz4_ok lz4_small). Qed.
 End C06.
 
